@@ -53,7 +53,7 @@ RULE = (
     "'r' under a held handle.  non-trivial = the case reaches Workspace._io_call with a request for a writable mode"
 )
 LEVEL_TEXT = (
-    "Proved in Coq (8 theorems, closed under the global context) for ALL operation sequences without an explicit writable re-open "
+    "Proved in Coq (10 theorems, closed under the global context) for ALL operation sequences without an explicit writable re-open "
     "on a workspace built with mode 'r': the model's file (log of H5Writer routines that ran) is unchanged, the handle stays 'r' "
     "or closed, and every operation that contains a writer routine is refused (read-only error, or closed-file error when "
     "closed). Also: the constructor mode is invariant over any history; a handle of a workspace built 'r' becomes writable only "
@@ -61,7 +61,9 @@ LEVEL_TEXT = (
     "not itself raise); every step of a read-only span leaves the file unchanged. The hypothesis that the operations' "
     "_io_call's are gated is a theorem over the complete table of call sites extracted by ast from the current source on every "
     "run (vm_compute; row counts of the run are in coverage.tables; H5Reader free of mutating statements). Helpers "
-    "path2workspace and monitored_directory_copy are modelled and proved read-only. Partial: byte-level immutability rests on "
+    "path2workspace and monitored_directory_copy are modelled and proved read-only; the helper blocks that rely on the default mode of "
+    "fetch_active_workspace resolve to 'r' (default and call table read off the source on every run) and are read-only on closed "
+    "workspaces built with any mode. Partial: byte-level immutability rests on "
     "h5py's mode enforcement and is observed (SHA-256 before/after, geoh5.mode, exception kind) for every public mutating entry "
     "point found by reflection (each also run on an r+ twin, and a subset on a workspace whose open fell back to 'r'), random "
     "and span sequences, and helper cases; model and code are compared per case inside Coq, including the static site of every "
